@@ -2,6 +2,8 @@
 
 package process
 
+import "time"
+
 // Verification hooks are compiled out without the verif build tag.
 
 func vhSpawn(re *RuntimeEnvironment, p *Process) {}
@@ -17,3 +19,4 @@ func vhTcBegin(env *GlobalEnvironment)                                      {}
 func vhTcStep(env *GlobalEnvironment)                                       {}
 func vhTcEnd(env *GlobalEnvironment)                                        {}
 func vhTcDone(env *GlobalEnvironment)                                       {}
+func vhBeat(re *RuntimeEnvironment, expired bool, timeout time.Duration)    {}
